@@ -127,7 +127,14 @@ def main():
     limit = None
     out = "/verif/seeded/mutation-campaign.jsonl"
     stride = 1
+    only = None
     for i, a in enumerate(args):
+        if a == "--only-survivors":
+            only = set()
+            for l in open(args[i + 1]):
+                j = json.loads(l)
+                if j["status"] == "SURVIVED":
+                    only.add((j["file"], j["line"], j["op"], j["col_src"]))
         if a == "--files":
             files = args[i + 1].split(",")
         if a == "--limit":
@@ -160,6 +167,8 @@ def main():
                 continue
             key = (path, ln, op, old.strip()[:60])
             if key in done:
+                continue
+            if only is not None and key not in only:
                 continue
             if limit is not None and n >= limit:
                 return
